@@ -1,3 +1,4 @@
+import re
 """C12 — keys, signatures, encryption: the structural necessary conditions only (gates, def-use of what is signed, primitive binding)."""
 import common
 import facts
@@ -172,6 +173,25 @@ def check(rep, F, tier, replay=None):
             lo_ = _gmin(F, fid_, c.bb)[0]
             if (hi_ is not None and hi_ < need_hi) or (lo_ is not None and lo_ > 0):
                 rep.violation("DERIVE-total", "%s|%s..%s" % (key_, lo_ if lo_ is not None else 0, hi_ if hi_ is not None else "max"), "%s reaches %s only for indices %s ..= %s: index %s, which the dependency derives, is refused by the wrapper" % (key_, callee_, lo_ if lo_ is not None else 0, hi_ if hi_ is not None else "u32::MAX", ("0x%X" % (hi_ + 1)) if hi_ is not None else lo_ - 1), {})
+    # KDF-pad: HMAC identifies a key with its zero-padded extension
+    rep.rule("KDF-pad", "the password reaches the key derivation either through a step that binds its length (a hash, a length prefix) or the KDF's MAC is not HMAC keyed directly with it: HMAC zero-pads a key shorter than the hash block (128 bytes for SHA-512), so `pw` and `pw || 00..` are the same key - two different passwords decrypt the same container (a fact about the primitive, tables/dep_model.json; the rule decides from the origins of Hmac::new's key argument)")
+    for key_ in ("emip3::encrypt_with_password", "emip3::decrypt_with_password"):
+        fid_ = find_fn(rep, F, key_)
+        if not fid_:
+            continue
+        fn_ = F.fns[fid_]
+        org_ = ff.Origins(F, fid_)
+        hm_ = [c for c in F.calls(fid_) if (c.to or "").endswith("hmac::Hmac::<D>::new")]
+        if not hm_:
+            rep.lost("%s no longer keys an HMAC (re-anchor KDF-pad)" % key_)
+            continue
+        for c in hm_:
+            rep.inst("KDF-pad")
+            o_ = org_.of_operand(fn_["bbs"][c.bb]["t"][3][1])
+            calls_ = {x.split("@")[0][5:] for x in o_ if x.startswith("call:")}
+            binds = [x for x in calls_ if re.search(r"(blake2b|sha2|sha3|digest|Digest|hash|len)", x) and "hex::decode" not in x]
+            if "arg:1" in o_ and not binds:
+                rep.violation("KDF-pad", "%s|password" % key_.rsplit("::", 1)[-1], "%s keys HMAC-SHA512 directly with the hex-decoded password: a password that differs only by trailing 00 bytes derives the same key - decrypt_with_password(`70617373776f726400`, encrypt_with_password(`70617373776f7264`, ..)) returns the plaintext instead of an error" % key_, {})
     # K-emip3
     rep.rule("K-emip3", "EMIP-3 container constants")
     for name, want in EMIP3.items():
